@@ -30,8 +30,8 @@ func c20Spec() *spec.Spec {
 	s.Paths = []*spec.PathItem{
 		{Template: "/items/{id}", Params: []*spec.Param{{Name: "id", In: "path", Required: true, Schema: spec.T("string")}},
 			Ops: []*spec.Op{{Method: "POST", ID: "echoItem", Security: &[]spec.SecReq{{"b"}},
-				Params: []*spec.Param{{Name: "q", In: "query", Required: true, Schema: spec.T("string")}, {Name: "X-Tag", In: "header", Schema: spec.T("string")}, {Name: "tags", In: "query", Schema: spec.Arr(spec.T("string"))}},
-				Body:   &spec.Body{Schema: spec.RefTo("Item"), Required: true},
+				Params:    []*spec.Param{{Name: "q", In: "query", Required: true, Schema: spec.T("string")}, {Name: "X-Tag", In: "header", Schema: spec.T("string")}, {Name: "tags", In: "query", Schema: spec.Arr(spec.T("string"))}},
+				Body:      &spec.Body{Schema: spec.RefTo("Item"), Required: true},
 				Responses: []*spec.Response{{Status: "200", Desc: "r", Schema: spec.RefTo("Echo"), Headers: []*spec.Header{{Name: "X-Echo", Required: true, Schema: spec.T("string")}}}, {Status: "default", Desc: "d"}}}}},
 		{Template: "/raw/{id}", Params: []*spec.Param{{Name: "id", In: "path", Required: true, Schema: spec.T("string")}},
 			Ops: []*spec.Op{{Method: "PUT", ID: "putRaw", Security: &[]spec.SecReq{{"k"}}, Body: &spec.Body{ContentType: "application/octet-stream", Schema: spec.TF("string", "binary")},
@@ -70,12 +70,12 @@ func C20(run *report.Run) {
 	var variants []variant
 	if run.Tier == "quick" {
 		variants = []variant{
-			{"p00001", "shared", 2, [][]string{{"echo", "echo"}, {"echo", "raw"}, {"echo", "spec"}, {"spec", "fail"}, {"echo", "fail"}}, 400000},
+			{"p00001", "shared", 2, [][]string{{"echo", "echo"}, {"echo", "raw"}, {"echo", "spec"}, {"spec", "fail"}, {"echo", "fail"}, {"miss", "miss"}, {"echo", "miss"}}, 400000},
 			{"p00002", "all", 1, [][]string{{"echo", "echo"}, {"echo", "raw"}}, 400000},
 		}
 	} else {
 		variants = []variant{
-			{"p00001", "shared", 3, [][]string{{"echo", "echo"}, {"echo", "raw"}, {"echo", "spec"}, {"spec", "fail"}, {"echo", "fail"}}, 3000000},
+			{"p00001", "shared", 3, [][]string{{"echo", "echo"}, {"echo", "raw"}, {"echo", "spec"}, {"spec", "fail"}, {"echo", "fail"}, {"miss", "miss"}, {"echo", "miss"}}, 3000000},
 			{"p00002", "all", 2, [][]string{{"echo", "echo"}, {"echo", "raw"}, {"raw", "raw"}}, 3000000},
 			{"p00003", "shared", 2, [][]string{{"echo", "echo", "echo"}, {"echo", "raw", "spec"}, {"echo", "echo", "fail"}}, 3000000},
 		}
